@@ -361,6 +361,13 @@ VerifyMessage(p, next) ==
                      /\ (p.typ \in {"accept", "reject"} => Addr[p.sarg] = Addr[p.arg])
                   THEN "ok" ELSE "bad signature"
 
+(* The refusals of a packet that are AUTHENTICATION decisions (who sent it, which key signed it, is the    *)
+(* sender entitled, are the joiners who they claim to be).  When the specification refuses a packet for   *)
+(* one of them and the code changes state on it, that is a C09 verdict, not model drift.                  *)
+AuthRefusals == {"bad signature", "no such participant", "ErrInvalidKeyScheme",
+                 "ErrCannotProposeAsNonLeader", "ErrOnlyLeaderCanTriggerExecute", "ErrOnlyLeaderCanRemoteAbort",
+                 "ErrInvalidAcceptor", "ErrInvalidRejector", "ErrUnknownAcceptor", "ErrUnknownRejector"}
+
 (* p = [k |-> "pkt", typ, t (terms sent; proposals), s (terms signed), claimed, skey, arg, sarg] *)
 PacketOp(me, c0, f0, x0, now, p) ==
   LET base == Fallback(c0, f0)
